@@ -28,6 +28,12 @@ type GroupedInfo struct {
 // GenGroupedImage makes an image with 1-4 groups of 1-6 objects of all types (empty ones too),
 // interleaved in the table, after a short pre-history that may delete objects.
 func GenGroupedImage(r *Rng) (*sif.Buffer, GroupedInfo) {
+	b, info, _ := GenGroupedImageH(r)
+	return b, info
+}
+
+// GenGroupedImageH also returns the handle the history ran on.
+func GenGroupedImageH(r *Rng) (*sif.Buffer, GroupedInfo, *sif.FileImage) {
 	ng := 1 + r.Intn(4)
 	gids := []uint32{1, 2, 3, 4}[:ng]
 	if r.Chance(1, 4) {
@@ -77,7 +83,11 @@ func GenGroupedImage(r *Rng) (*sif.Buffer, GroupedInfo) {
 		if err != nil {
 			continue
 		}
-		if err := f.AddObject(di, sif.OptAddWithTime(fixedTime())); err == nil {
+		aopt := sif.OptAddWithTime(fixedTime())
+		if det {
+			aopt = sif.OptAddDeterministic()
+		}
+		if err := f.AddObject(di, aopt); err == nil {
 			added++
 		}
 	}
@@ -85,8 +95,29 @@ func GenGroupedImage(r *Rng) (*sif.Buffer, GroupedInfo) {
 	// pre-history: delete one or two objects (the lowest ID of a group among them)
 	for k := r.Intn(3); k > 0 && added > 2; k-- {
 		id := uint32(1 + r.Intn(added))
-		if err := f.DeleteObject(id, sif.OptDeleteWithTime(fixedTime()), sif.OptDeleteZero(r.Chance(1, 2)), sif.OptDeleteCompact(false)); err == nil {
+		var grp uint32
+		if d, err := f.GetDescriptor(sif.WithID(id)); err == nil {
+			grp = d.GroupID()
+		}
+		topts := []sif.DeleteOpt{sif.OptDeleteZero(r.Chance(1, 2)), sif.OptDeleteCompact(false)}
+		if det {
+			topts = append(topts, sif.OptDeleteDeterministic())
+		} else {
+			topts = append(topts, sif.OptDeleteWithTime(fixedTime()))
+		}
+		if err := f.DeleteObject(id, topts...); err == nil {
 			info.Desc += fmt.Sprintf(", deleted %d before signing", id)
+			// a new object takes the freed slot, in the same group
+			if grp != 0 && r.Chance(1, 2) {
+				di, _ := sif.NewDescriptorInput(sif.DataGeneric, bytes.NewReader([]byte("replacement")), sif.OptGroupID(grp), sif.OptObjectAlignment(1))
+				aopt := sif.OptAddWithTime(fixedTime())
+				if det {
+					aopt = sif.OptAddDeterministic()
+				}
+				if err := f.AddObject(di, aopt); err == nil {
+					info.Desc += fmt.Sprintf(", added a new object to group %d in its place", grp)
+				}
+			}
 		}
 	}
 	seen := map[uint32]bool{}
@@ -98,7 +129,7 @@ func GenGroupedImage(r *Rng) (*sif.Buffer, GroupedInfo) {
 		return false
 	})
 	sort.Slice(info.Groups, func(i, j int) bool { return info.Groups[i] < info.Groups[j] })
-	return &b, info
+	return &b, info, f
 }
 
 // SignConfig is one supported signing configuration.
